@@ -152,14 +152,21 @@ void h_hist(void){
 /* constructors observed directly */
 void h_ctor(void){
   u32 out[OUTCAP]; for (int i = 0; i < OUTCAP; i++) out[i] = 0xdeadbeef;
-  u64 n = in_u64(0, 6);
-#ifdef KF_C19_VECTOR_SIZED_CTOR_UNINIT
-  ASSUME(n == 0);      /* vector(N) exposes N uninitialised cells */
-#endif
+  u64 n = in_u64(0, 6); u64 r;
   pool_begin();
-  u64 r = KS(k_vector_sized)(n, out, OUTCAP); OBS(r);
+#if defined(KF_C19_VECTOR_SIZED_CTOR_UNINIT) && defined(KF_C19_VECTOR_ZERO_LEAK)
+  /* every N lies inside one of the two pending findings (N > 0: uninitialised cells, N == 0: leaked block): only the variadic constructor is left */
+#else
+#ifdef KF_C19_VECTOR_SIZED_CTOR_UNINIT
+  ASSUME(n == 0);      /* vector(N), N > 0, exposes N uninitialised cells */
+#endif
+#ifdef KF_C19_VECTOR_ZERO_LEAK
+  ASSUME(n > 0);       /* vector(0) never frees its malloc(0) block */
+#endif
+  r = KS(k_vector_sized)(n, out, OUTCAP); OBS(r);
   ASSERT(r == n, "vector(N).size() == N");
   for (u64 i = 0; i < OUTCAP; i++) if (i < n){ ASSERT(out[i] == 0, "vector(N): elements are value-initialised like std::vector(N)"); }
+#endif
   u32 a = in_any32(), b = in_any32(), c = in_any32();
   r = KS(k_vector_variadic)(a, b, c, out, OUTCAP); OBS(r);
   ASSERT(r == 3 && out[0] == a && out[1] == b && out[2] == c, "vector(a,b,c) holds a,b,c");
